@@ -19,7 +19,7 @@ import sys
 from concurrent.futures import ThreadPoolExecutor
 
 sys.path.insert(0, os.path.dirname(os.path.abspath(__file__)))
-from seed import ALL, PY, VERIF, copy_repo  # noqa: E402
+from seed import ALL, PY, VERIF, apply_patch, copy_repo  # noqa: E402
 
 
 def run_checks(copy, props, tier, jobs=3):
@@ -47,16 +47,22 @@ def verify(args):
     meta = json.load(open(os.path.join(seed, "meta.json")))
     patched, clean = copy_repo(), copy_repo()
     try:
-        ap = subprocess.run(["git", "apply", os.path.join(seed, "patch.diff")], cwd=patched, capture_output=True, text=True)
-        if ap.returncode != 0:
-            print("PATCH DOES NOT APPLY", ap.stderr[-500:])
+        ok, how = apply_patch(os.path.join(seed, "patch.diff"), patched)
+        if not ok:
+            print("PATCH DOES NOT APPLY", how)
             return 2
         t = subprocess.run([PY, "-m", "pytest", "-q", "-p", "no:cacheprovider", "tests"], cwd=patched, capture_output=True, text=True,
                            env=dict(os.environ, PYTHONPATH=patched))
         suite = t.stdout.strip().splitlines()[-1] if t.stdout.strip() else t.stderr[-200:]
         d1 = subprocess.run([PY, os.path.join(seed, "demo.py")], cwd=patched, capture_output=True, text=True, env=dict(os.environ, PYTHONPATH=patched), timeout=900)
         d0 = subprocess.run([PY, os.path.join(seed, "demo.py")], cwd=clean, capture_output=True, text=True, env=dict(os.environ, PYTHONPATH=clean), timeout=900)
-        same = digest(d1.stdout) is not None and digest(d1.stdout) == digest(d0.stdout)
+        if args.behaviour:
+            # round q: observable behaviour differs in a respect the property leaves open; the agent's own property assertions pass both ways
+            last = lambda o, k: ([l for l in o.splitlines() if l.startswith(k)] or [None])[-1]  # noqa
+            same = (last(d1.stdout, "PROPERTY-OK") is not None and last(d0.stdout, "PROPERTY-OK") is not None
+                    and "PROPERTY-FAIL" not in d1.stdout + d0.stdout and last(d1.stdout, "BEHAVIOUR") != last(d0.stdout, "BEHAVIOUR"))
+        else:
+            same = digest(d1.stdout) is not None and digest(d1.stdout) == digest(d0.stdout)
         st = subprocess.run(["git", "apply", "--numstat", os.path.join(seed, "patch.diff")], cwd=clean, capture_output=True, text=True).stdout
         print(f"suite: {suite} | demo digests identical: {same} | numstat: {st.strip()!r}")
         props = args.only or ALL
@@ -66,7 +72,7 @@ def verify(args):
         os.makedirs(dest, exist_ok=True)
         for f in ("patch.diff", "demo.py"):
             shutil.copy(os.path.join(seed, f), os.path.join(dest, f))
-        json.dump(dict(meta, id=args.id, suite_with_change=suite, suite_green=t.returncode == 0, demo_digests_identical=same, numstat=st.strip(),
+        json.dump(dict(meta, id=args.id, suite_with_change=suite, suite_green=t.returncode == 0, demo_digests_identical=same, kind="behaviour-changing" if args.behaviour else "behaviour-preserving", numstat=st.strip(),
                        checks={args.tier: checks}, alarms=alarms,
                        what_was_run=["git apply patch.diff on a scratch copy of /repo; pytest tests (PYTHONPATH=copy)",
                                      "demo.py on patched and clean copy, DIGEST lines compared",
@@ -86,9 +92,9 @@ def recheck(args):
         meta = json.load(open(os.path.join(d, "meta.json")))
         patched = copy_repo()
         try:
-            ap = subprocess.run(["git", "apply", os.path.join(d, "patch.diff")], cwd=patched, capture_output=True, text=True)
-            if ap.returncode != 0:
-                print(pid, "PATCH DOES NOT APPLY ANY MORE")
+            ok, how = apply_patch(os.path.join(d, "patch.diff"), patched)
+            if not ok:
+                print(pid, "PATCH DOES NOT APPLY ANY MORE", how)
                 continue
             res = run_checks(patched, args.only or ALL, args.tier)
             meta.setdefault("checks", {})[args.tier] = {**meta.get("checks", {}).get(args.tier, {}), **res}
@@ -105,6 +111,7 @@ def main():
     v = sub.add_parser("verify")
     v.add_argument("worktree")
     v.add_argument("id")
+    v.add_argument("--behaviour", action="store_true", help="behaviour-changing but property-preserving change (PROPERTY-OK both ways, BEHAVIOUR lines differ)")
     r = sub.add_parser("recheck")
     r.add_argument("ids", nargs="*")
     for s in (v, r):
